@@ -35,9 +35,21 @@
 //! Borrowed ideas from [mfouesneau/NUTS](https://github.com/mfouesneau/NUTS).
 
 use std::error::Error;
+#[cfg(mini_mcmc_verif)]
+use mcmc_sim::mpsc;
+#[cfg(mini_mcmc_verif)]
+use mcmc_sim::mpsc::{Receiver, Sender};
+#[cfg(mini_mcmc_verif)]
+use mcmc_sim::thread;
+#[cfg(mini_mcmc_verif)]
+use mcmc_sim::time::{Duration, Instant};
+#[cfg(not(mini_mcmc_verif))]
 use std::sync::mpsc;
+#[cfg(not(mini_mcmc_verif))]
 use std::sync::mpsc::{Receiver, Sender};
+#[cfg(not(mini_mcmc_verif))]
 use std::thread;
+#[cfg(not(mini_mcmc_verif))]
 use std::time::{Duration, Instant};
 
 use crate::distributions::GradientTarget;
@@ -54,6 +66,9 @@ use rand::prelude::*;
 use rand::Rng;
 use rand_distr::uniform::SampleUniform;
 use rand_distr::{Exp1, StandardNormal, StandardUniform};
+#[cfg(mini_mcmc_verif)]
+use mcmc_sim::par::prelude::*;
+#[cfg(not(mini_mcmc_verif))]
 use rayon::iter::{IntoParallelRefMutIterator, ParallelIterator};
 
 /// No-U-Turn Sampler (NUTS).
@@ -299,6 +314,9 @@ where
                 if n_finished >= most_recent.len() {
                     break;
                 }
+                #[cfg(mini_mcmc_verif)]
+                thread::sleep(sleep_ms);
+                #[cfg(not(mini_mcmc_verif))]
                 std::thread::sleep(sleep_ms);
             }
         });
@@ -458,6 +476,8 @@ where
         let (dim, mut sample) = self.init_chain(n_collect, n_discard);
 
         for m in 1..(n_collect + n_discard) {
+            #[cfg(mini_mcmc_verif)]
+            mcmc_sim::sched_point("nuts_run_step");
             self.step();
 
             if m >= n_discard {
